@@ -98,7 +98,8 @@ sim::Json generate(const std::string& tier, uint64_t seed, uint64_t index) {
   auto add_suf = [&](const char* name, int kind, bool real, int size, double base) {
     sim::Json s = sim::Json::object(); s.set("name", name); s.set("kind", kind | (real ? 4 : 0));
     std::vector<double> v(size);
-    for (int k = 0; k < size; ++k) v[k] = rng.chance(0.3) ? 0.0 : base + k + (real ? 0.5 : 0.0);
+    double sign = rng.chance(0.3) ? -1.0 : 1.0;      // negative values too (.sosno < 0, .direction -1, ...)
+    for (int k = 0; k < size; ++k) v[k] = rng.chance(0.3) ? 0.0 : sign * (base + k + (real ? 0.5 : 0.0));
     s.set("values", jarr(v)); sufs.push(s);
   };
   if (rng.chance(0.5)) add_suf("priority", 0, false, n, 100);
